@@ -9,7 +9,7 @@ pub fn prop() -> Prop {
     Prop {
         id: "C03",
         level: "fault_enumeration",
-        rule: "chunks over payload lengths {1..64, 255..257, 1399, 1400, 4096, 65532..65535, random}, all 71 boards, every chip/flags byte, declared length off by +-1..4, non-zero padding, CRCs over wrong ranges; library vs reference decision + fields + re-encoding + header_crc32c()/payload_crc32c(). For each accepted chunk: every single-bit flip, bursts of 2..32 bits at every bit offset (short chunks) or at header/tail + sampled offsets (long chunks), sampled 2- and 3-bit flips. Non-trivial = distinct (accepted chunk, corruption) pairs actually decoded + distinct near-valid chunks. Also: all-ones / alternating pattern bursts of 8..32 bits at every byte offset; plain and byte-swapped CRC words; zero words appended with consistent CRC; padding patterns that cancel under xor; chunks whose correct stored CRC words are forged to 0, 0xFFFFFFFF, 1, ... (full campaign on each); device ids mixed from two known boards; alignment independence. Round 4: every declared length 0..=65535 against bodies of 8..65 536 bytes ending in 0..260 zero bytes (header CRC consistent); header fields at constants harvested from the library sources jointly with one more header bit / byte changed. Round 5: first-decode probes (each fresh shard process starts with a different near-valid padded chunk). Round 6: alignment bytes left out (fully / partly) with a consistent CRC word, for every board and both flag values; every slice length 24..=2100 and sampled lengths up to 65 564 with 15 wrong declared lengths each.",
+        rule: "chunks over payload lengths {1..64, 255..257, 1399, 1400, 4096, 65532..65535, random}, all 71 boards, every chip/flags byte, declared length off by +-1..4, non-zero padding, CRCs over wrong ranges; library vs reference decision + fields + re-encoding + header_crc32c()/payload_crc32c(). For each accepted chunk: every single-bit flip, bursts of 2..32 bits at every bit offset (short chunks) or at header/tail + sampled offsets (long chunks), sampled 2- and 3-bit flips. Non-trivial = distinct (accepted chunk, corruption) pairs actually decoded + distinct near-valid chunks. Also: all-ones / alternating pattern bursts of 8..32 bits at every byte offset; plain and byte-swapped CRC words; zero words appended with consistent CRC; padding patterns that cancel under xor; chunks whose correct stored CRC words are forged to 0, 0xFFFFFFFF, 1, ... (full campaign on each); device ids mixed from two known boards; alignment independence. Round 4: every declared length 0..=65535 against bodies of 8..65 536 bytes ending in 0..260 zero bytes (header CRC consistent); header fields at constants harvested from the library sources jointly with one more header bit / byte changed. Round 5: first-decode probes (each fresh shard process starts with a different near-valid padded chunk). Round 6: alignment bytes left out (fully / partly) with a consistent CRC word, for every board and both flag values; every slice length 24..=2100 and sampled lengths up to 65 564 with 15 wrong declared lengths each. Round 10: slices longer than any legitimate chunk (body 65 537..131 080 bytes) with a short declared payload (0..9 and the 16-bit alias of the body length +-5) followed by zero bytes only, payload CRC over the declared bytes / over the whole body.",
         assumptions: &["bitwise CRC-32C (reflected poly 0x82F63B78) verified against the test vector 0xE3069283 at start-up", "CRC-32C detects all 1-3 bit errors up to 64 KiB and all bursts <= 32 bits, so any accepted corruption is a genuine violation"],
         profiles: both,
         shards: shards16,
@@ -363,6 +363,37 @@ fn run(ctx: &mut Ctx) {
             light(ctx, &b, "declared length sweep");
         }
         ctx.count_n("declared lengths swept", 4096);
+    });
+    // ---- slices longer than any legitimate chunk (body 65 537..131 080 bytes): a short declared payload followed by
+    // zero bytes only, both CRC words consistent (payload CRC over the declared bytes / over the whole body): the
+    // declared length is a 16-bit field, the slice length is not, so width-truncated comparisons alias here (round 10)
+    ctx.cases("overlong-zero-tail", 20, |ctx, i, rng| {
+        let body = [65_537usize, 65_538, 65_539, 65_540, 65_541, 65_543, 65_544, 65_548, 65_600, 65_792, 66_000, 70_000, 98_304, 131_068, 131_071, 131_072, 131_073, 131_075, 131_076, 131_080][i as usize];
+        let board = rng_board(rng);
+        let alias = body & 0xFFFF;
+        let mut decl: Vec<usize> = (0..=9).collect();
+        decl.extend((alias.saturating_sub(5)..=alias + 5).filter(|d| *d <= 65_535));
+        decl.extend([255, 256, 65_532, 65_533, 65_534, 65_535]);
+        for d in decl {
+            for over_all in [false, true] {
+                let mut b: Vec<u8> = Vec::with_capacity(24 + body);
+                b.extend(pwb_device_id(&board).to_le_bytes());
+                b.extend(7u32.to_le_bytes());
+                b.extend(8u16.to_le_bytes());
+                b.push(rng.below(4) as u8);
+                b.push(rng.below(2) as u8);
+                b.extend(3u16.to_le_bytes());
+                b.extend((d as u16).to_le_bytes());
+                let h = !enc::crc32c(&b[..16]);
+                b.extend(h.to_le_bytes());
+                b.extend(rng.bytes(d.min(body)).iter().map(|x| x | 1));
+                b.resize(20 + body, 0);
+                let pc = if over_all { !enc::crc32c(&b[20..]) } else { !enc::crc32c(&b[20..20 + d.min(body)]) };
+                b.extend(pc.to_le_bytes());
+                light(ctx, &b, "overlong slice, short declared payload, zero tail");
+                ctx.count("overlong zero-tail slices");
+            }
+        }
     });
     // ---- every slice length 24..=2100 (and sampled lengths up to 65 564) with wrong declared lengths of every residue,
     // both CRC words consistent: no particular size of a datagram is special
